@@ -18,10 +18,13 @@ def gen_cases(ctx):
         raise vlib.ToolError("generator self-check failed: %s" % g.tagged_raw("X")[0][:300])
     cases, seen = [], set()
     for c in g.tagged("G"):
-        key = (json.dumps(c["stream"]), json.dumps(c["entries"]))
-        if key not in seen:
+        if len(c["stream"]) <= 64:      # short streams recur (shared prefixes, fixed family): keep one copy
+            key = (tuple(c["stream"]), json.dumps(c["entries"]))
+            if key in seen:
+                continue
             seen.add(key)
-            cases.append(c)
+        cases.append(c)
+    g.out = ""
     if not cases:
         raise vlib.ToolError("generator produced no cases")
     return cases
@@ -97,7 +100,7 @@ def run(ctx):
                 "profiles. impl->spec: seeded corruptions of valid streams and random bytes. Non-trivial = case whose token "
                 "sequence has a reference or whose stream is a malformed/silent variant (spec->impl); event whose class is "
                 "not a header-level rejection (impl->spec)."
-                % (ctx.pick(4, 5), ctx.pick("", ",5"), ctx.pick("1,3,17,4096", "1..18,272,273,4094..4097,5000")))
+                % (ctx.pick(4, 5), "", ctx.pick("1,3,17,4096", "1..4,15..18,272,273,4095..4097")))
     bins = {p: ctx.build(p, c08.BIN) for p in PROFILES}
     c08.model_laws(ctx)
     # spec -> impl
